@@ -15,6 +15,7 @@ func init() {
 	harn.Register("C05_Depleted", RunDepleted)
 	harn.Register("C05_SlowReply", RunSlowReply)
 	harn.Register("C12_Hostile", RunHostile)
+	harn.Register("C12_BlockedWrite", RunBlockedWrite)
 	harn.Register("C12_WriteDeadline", RunWriteDeadline)
 }
 
@@ -27,6 +28,10 @@ func TestC05_Alloc(t *testing.T)     { harn.Check(t, "C05_Alloc", GenAlloc, RunA
 func TestC05_Depleted(t *testing.T)  { harn.Check(t, "C05_Depleted", GenDepleted, RunDepleted) }
 func TestC05_SlowReply(t *testing.T) { harn.Check(t, "C05_SlowReply", GenSlowReply, RunSlowReply) }
 func TestC12_Hostile(t *testing.T)   { harn.Check(t, "C12_Hostile", GenHostile, RunHostile) }
+
+func TestC12_BlockedWrite(t *testing.T) {
+	harn.Check(t, "C12_BlockedWrite", GenBlockedWrite, RunBlockedWrite)
+}
 
 // TestC12_ProbeD17 exercises the known finding D17 (see known-findings.txt).
 func TestC12_ProbeD17(t *testing.T) {
